@@ -55,4 +55,7 @@ def handle : Handler
     some (joinSp (toString r.length :: r))
   | _ => none
 
+def handlers : List (String × Handler) :=
+  ["attr", "inclpass", "accept-attr", "accept-incl"].map (·, handle)
+
 end Avo.Drv.C19
